@@ -136,21 +136,52 @@ def r3(ctx):
             ctx.check(ok, f"preprocessor:IncludeNode.evaluate_for_platform:message:{what}:system={int(sysflag[0])}", f"the warning for an include that resolves to no file does not state the {what} ({'<> form' if sysflag[0] else 'quote form'}; expected `{want_kind}`, the file, the line and `{req}`): {text[:160]}", f.loc())
     if n_warn < 2:
         raise AnalysisError(f"IncludeNode.evaluate_for_platform: {n_warn} warning paths found, expected both forms")
-    # directive warning
+    # directive warning, as a table specification: a directive is warned about exactly when it is unrecognised, has a
+    # name (second token) and that name is not one of line / warning / error; the message states file, line, column
+    # and the directive's spelling
     g = repo.func("file_parser", "FileParser.insert_directive_node")
-    warn = [c for c in g.calls() if u(c.func) == "log.warning"]
-    ctx.require(len(warn) == 1, "insert_directive_node: warning call not found")
-    txt = u(warn[0])
-    for what in ("filename", "line", "column", "message"):
-        ctx.soft("{" + what + "}" in txt, f"file_parser:FileParser.insert_directive_node:message:{what}", f"the unrecognised-directive warning does not mention {what}", g.loc(warn[0]))
-    envg = {u(s.targets[0]): u(s.value) for s in walk_no_nested(g.node) if isinstance(s, ast.Assign)}
-    ok = envg.get("unhandled") == "['line', 'warning', 'error']"
-    ctx.check(ok, "file_parser:FileParser.insert_directive_node:exemptions", f"only #line, #warning and #error may be ignored silently: {envg.get('unhandled')}", g.loc())
-    ifs = [s for s in walk_no_nested(g.node) if isinstance(s, ast.If) and "unhandled" in u(s.test)]
-    ok = len(ifs) == 1 and u(ifs[0].test) == "len(tokens) >= 2 and str(tokens[1]) not in unhandled"
-    ctx.soft(ok, "file_parser:FileParser.insert_directive_node:exemption-test", "the exemption test must compare the directive name (second token) with the exemption list", g.loc())
-    outer = [s for s in walk_no_nested(g.node) if isinstance(s, ast.If) and u(s.test) == "isinstance(new_node, preprocessor.UnrecognizedDirectiveNode)"]
-    ctx.soft(len(outer) == 1 and any(x is warn[0] for x in ast.walk(outer[0])), "file_parser:FileParser.insert_directive_node:unrecognized-only", "exactly the unrecognised directives must be warned about", g.loc())
+    from ..spec import atoms as _atoms, tab as _tab1
+
+    EXEMPT = {"line", "warning", "error"}
+    n_dir = 0
+    for p in _tab1(g, unroll=1):
+        at = _atoms(p)
+        unrec = next((v for k, v in at.items() if re.fullmatch(r"isinstance\((.+), (preprocessor\.)?UnrecognizedDirectiveNode\)", k)), None)
+        node = next((re.fullmatch(r"isinstance\((.+), (preprocessor\.)?UnrecognizedDirectiveNode\)", k).group(1) for k in at if re.fullmatch(r"isinstance\((.+), (preprocessor\.)?UnrecognizedDirectiveNode\)", k)), None)
+        if unrec is None:
+            raise AnalysisError(f"insert_directive_node: no test for UnrecognizedDirectiveNode on {p.describe()[:120]}")
+        n_dir += 1
+        warns = [e for e in p.effects if e[0] == "call" and str(e[1]) in ("log.warning", "log.warn")]
+        T = f"{node}.tokens"
+        short = next((v for k, v in at.items() if k in (f"len({T}) Lt 2", f"2 Gt len({T})")), None)
+        if short is None:
+            short = next((not v for k, v in at.items() if k in (f"len({T}) Gt 1", f"1 Lt len({T})")), None)
+        names = {m.group(1): v for k, v in at.items() for m in [re.fullmatch(r"'(\w+)' Eq str\(" + re.escape(T) + r"\[1\]\)", k) or re.fullmatch(r"'(\w+)' Eq " + re.escape(T) + r"\[1\]\.token", k)] if m}
+        other = [k for k in at if k not in [kk for kk in at if "UnrecognizedDirectiveNode" in kk] and T not in k]
+        key = f"file_parser:FileParser.insert_directive_node:unrecognized={vt(str(int(unrec)))},short={short},name={[n_ for n_, v in names.items() if v]}"
+        if other:
+            ctx.violation("file_parser:FileParser.insert_directive_node:unrecognized-only", f"whether an unrecognised directive is reported depends on {other[:2]}", g.loc())
+            continue
+        ctx.check(set(names) <= EXEMPT, "file_parser:FileParser.insert_directive_node:exemptions", f"only #line, #warning and #error may be ignored silently: the function also exempts {sorted(set(names) - EXEMPT)}", g.loc())
+        if not unrec:
+            ctx.check(not warns, key, "a recognised directive is warned about", g.loc())
+            continue
+        if short is None:
+            ctx.violation("file_parser:FileParser.insert_directive_node:exemption-test", "the directive's name is read (tokens[1]) on a path that does not establish that there is a second token", g.loc())
+            continue
+        exempt_hit = any(v for v in names.values())
+        decided = short or exempt_hit or set(names) == EXEMPT
+        if not decided:
+            continue
+        want = (not short) and not exempt_hit
+        ctx.check(len(warns) == (1 if want else 0), "file_parser:FileParser.insert_directive_node:unrecognized-only", f"an unrecognised directive (has a name: {not short}, exempted: {exempt_hit}) is reported {len(warns)} time(s); exactly the unrecognised directives other than #line/#warning/#error must be reported once", g.loc())
+        for e in warns:
+            txt = vt(e[2]) if len(e) > 2 else ""
+            need = {"filename": "tree.root.filename" in txt, "line": f"{T}[0].line" in txt or f"{node}.start_line" in txt or "line_group.start_line" in txt, "column": f"{T}[0].col" in txt, "message": f"{node}.spelling()" in txt}
+            for what, ok in need.items():
+                ctx.check(ok, f"file_parser:FileParser.insert_directive_node:message:{what}", f"the unrecognised-directive warning does not state the {what}: `{txt[:120]}`", g.loc())
+    if n_dir < 4:
+        raise AnalysisError(f"insert_directive_node: only {n_dir} rows understood")
     ctx.floor(11)
 
 
